@@ -83,6 +83,7 @@ def step(lsel: int, rsel: int) -> bool:
     post: _
     """
     op = OP
+    lsel, rsel = xs.pick(lsel, L_LO, L_HI), xs.pick(rsel, 0, NSEL)
     (l, lk), (r, rk) = mk(lsel, "l"), mk(rsel, "r")
     exp = _expected(op, l, lk, r, rk)
     if exp is None:
@@ -142,6 +143,7 @@ def refine(lsel: int, rsel: int, rl: bool, rr: bool) -> bool:
     """
     # C05: resolving UNKNOWN operands to FULFILLED/UNFULFILLED keeps validity and any definite result
     op = OP
+    lsel, rsel = xs.pick(lsel, L_LO, L_HI), xs.pick(rsel, 0, NSEL)
     (l, lk), (r, rk) = mk(lsel, "l"), mk(rsel, "r")
     if l.conditions_fulfilled is not CFV.UNKNOWN and r.conditions_fulfilled is not CFV.UNKNOWN:
         return True
@@ -246,7 +248,7 @@ def fce_step(idx: int) -> bool:
     pre: F_LO <= idx < F_HI
     post: _
     """
-    idx = xs.R(idx)
+    idx = xs.pick(idx, F_LO, F_HI)
     op, li, ri = fce_cases()[idx]
     lf, lk, lv, lfce = OPERANDS_L[li]
     rf, rk, rv, rfce = OPERANDS_R[ri]
